@@ -4290,11 +4290,11 @@ impl PictureMetrics {
         let _crc = r.read::<u32>()?;
 
         let (color_depth, colors_used) = match color_type {
-            0 => (bit_depth.into(), None),           // grayscale
-            2 => ((bit_depth * 3).into(), None),     // RGB
-            3 => (0, NonZero::new(plte_colors(r)?)), // palette
-            4 => ((bit_depth * 2).into(), None),     // grayscale + alpha
-            6 => ((bit_depth * 4).into(), None),     // RGB + alpha
+            0 => (bit_depth.into(), None),                // grayscale
+            2 => (u32::from(bit_depth) * 3, None),        // RGB
+            3 => (0, NonZero::new(plte_colors(r)?)),      // palette
+            4 => (u32::from(bit_depth) * 2, None),        // grayscale + alpha
+            6 => (u32::from(bit_depth) * 4, None),        // RGB + alpha
             _ => return Err(InvalidPicture::Png("invalid color type")),
         };
 
@@ -4330,7 +4330,7 @@ impl PictureMetrics {
                         media_type: "image/jpeg",
                         width: width.into(),
                         height: height.into(),
-                        color_depth: (data_precision * components).into(),
+                        color_depth: u32::from(data_precision) * u32::from(components),
                         colors_used: None,
                     });
                 }
